@@ -122,11 +122,6 @@ def reqHits (m : LitMap (Nat × Glob)) (c : Candidate) : List Nat :=
 def reHits (t : List (Nat × Glob)) (c : Candidate) : List Nat :=
   (t.filter fun e => e.2.isMatch c.path).map (·.1)
 
-/-- the order of `GlobSet.strats` (source names; the answer is sorted afterwards, so `C12_set` does not depend on
-this order — it is anchored only so that a reshuffle is noticed) -/
-def stratsOrder : List String :=
-  ["Extension", "BasenameLiteral", "Literal", "Suffix", "Prefix", "RequiredExtension", "Regex"]
-
 /-- the pushes of the seven `matches_into` calls, in the order of `strats`
 (Extension, BasenameLiteral, Literal, Suffix, Prefix, RequiredExtension, Regex) -/
 def GlobSet.pushes (s : GlobSet) (c : Candidate) : List Nat :=
@@ -149,6 +144,38 @@ def dedupAdj : List Nat → List Nat
 /-- `GlobSet::matches_candidate_into` -/
 def GlobSet.matchesCandidate (s : GlobSet) (c : Candidate) : List Nat :=
   if s.len == 0 then [] else dedupAdj (sortNat (s.pushes c))
+
+/-- the seven members of `GlobSet.strats` -/
+inductive StratKind where
+  | extension | basenameLiteral | literal | suffix | pfx | requiredExtension | regex
+  deriving Repr, DecidableEq
+
+/-- every strategy once (any arrangement of these seven is a possible `strats` vector) -/
+def allStrats : List StratKind :=
+  [.extension, .basenameLiteral, .literal, .suffix, .pfx, .requiredExtension, .regex]
+
+/-- what one strategy's `matches_into` pushes -/
+def GlobSet.hitsOf (s : GlobSet) (c : Candidate) : StratKind → List Nat
+  | .extension => extHits s.exts c
+  | .basenameLiteral => baseHits s.baseLits c
+  | .literal => litHits s.lits c
+  | .suffix => sufHits s.suffixes c
+  | .pfx => preHits s.prefixes c
+  | .requiredExtension => reqHits s.requiredExts c
+  | .regex => reHits s.regexes c
+
+/-- `for strat in &self.strats { strat.matches_into(path, into) }` for a `strats` vector in the given order -/
+def GlobSet.pushesIn (s : GlobSet) (order : List StratKind) (c : Candidate) : List Nat :=
+  order.flatMap (s.hitsOf c)
+
+/-- `matches_candidate_into` when the strategies sit in `order` -/
+def GlobSet.matchesCandidateIn (s : GlobSet) (order : List StratKind) (c : Candidate) : List Nat :=
+  if s.len == 0 then [] else dedupAdj (sortNat (s.pushesIn order c))
+
+/-- `is_match_candidate` when the strategies sit in `order`: some strategy reports a match (a strategy's
+`is_match` is true exactly when its `matches_into` pushes something) -/
+def GlobSet.isMatchIn (s : GlobSet) (order : List StratKind) (c : Candidate) : Bool :=
+  if s.len == 0 then false else order.any fun k => !(s.hitsOf c k).isEmpty
 
 /-- `GlobSetBuilder::build()` followed by `GlobSet::matches(path)` -/
 def setMatches (gs : List Glob) (p : Bytes) : List Nat :=
